@@ -302,4 +302,28 @@ CHECKS = {
              "(R3). Read-back of 1024 records cut with the same size (R4).",
         note="Not decided: SC&MP's behaviour; that count/app_id fit their "
              "documented field widths."),
+    "C14": dict(
+        technique="bit-provenance analysis of the reply decoders against "
+                  "the documented layout, symbolic normal forms of table "
+                  "addresses, constant folding of enums, structural "
+                  "comparison of the derived-set generators and reservation "
+                  "filters, parsing of sark.struct",
+        text="Chip-information decode: cores 4:0, links bit 8+link, router "
+             "block 24:14, Ethernet bit 25, '<18BHI' payload, fields to "
+             "their namesakes (R1). P2P table: dims split, column address = "
+             "base + 128*col, one word consumed per 8 rows, entry k at bits "
+             "3k+2:3k, every 3-bit value an enum member; every routed chip "
+             "probed (R2). Dead chips/links and membership tests of "
+             "SystemInfo and Machine, iteration filtered by membership (R3). "
+             "Machine model: exception iff any quantity differs from the "
+             "very default used, all three listed (R4). Global and per-chip "
+             "reservation filters test exactly bit <core> of one mask and "
+             "so partition the busy cores; range merging (R5). vcpu fields "
+             "used exist in sark.struct and the final key set equals "
+             "ProcessorStatus; iobuf chain and router counter reads (R6).",
+        note="Not decided: that the machine's replies mean what the "
+             "documentation says. Trusted: the cmd_info arg1 layout table "
+             "in rules/C14.py. Several R3/R6 instances compare normalised "
+             "statement text of small generators (listed in DESIGN.md as "
+             "the weakest rules)."),
 }
